@@ -139,6 +139,26 @@ def _wrap(a):
     return STensor(a)
 
 
+BROADCAST_LIMIT_EXCEEDED = []
+
+
+def broadcast_blocks(sa, sb):
+    """number of blocks of adjacent dimensions with the same broadcast direction after right-alignment (as tensorflow::BCast collapses
+    them); dimension pairs (1, 1) belong to any block"""
+    n = max(len(sa), len(sb))
+    sa = (1,) * (n - len(sa)) + tuple(sa)
+    sb = (1,) * (n - len(sb)) + tuple(sb)
+    cnt, prev = 0, None
+    for a, b in zip(sa, sb):
+        if a == 1 and b == 1:
+            continue
+        state = 0 if a == b else (1 if a == 1 else 2)
+        if state != prev:
+            cnt += 1
+            prev = state
+    return cnt
+
+
 class STensor:
     __array_priority__ = 1000
 
@@ -237,6 +257,11 @@ class STensor:
             return NotImplemented  # let the other operand's reflected method handle it (e.g. NumberError.__rpow__)
         b = _arr(o)
         x, y = (b, self.a) if rev else (self.a, b)
+        nblk = broadcast_blocks(x.shape, y.shape)
+        if nblk > 5:
+            # TensorFlow's element-wise kernels (BCast) support at most 5 collapsed broadcast blocks; eager mode raises, graph mode fails
+            # only when the graph runs.  Recorded, so that a contract can demand that the code never builds such a product.
+            BROADCAST_LIMIT_EXCEEDED.append((tuple(x.shape), tuple(y.shape), nblk))
         return _wrap(f(x, y))
 
     def __add__(self, o):
